@@ -4,7 +4,7 @@ import sys, json, gc
 build = sys.argv[1]
 sys.path.insert(0, build)
 import cvxopt
-from cvxopt import matrix, lapack, base, spmatrix, sparse
+from cvxopt import matrix, lapack, base, spmatrix, sparse, spdiag
 
 def mk(spec):
     if spec is None: return None
@@ -36,6 +36,60 @@ def val(v, dense=False):
     if 'bool' in v: return bool(v['bool'])
     if 'obj' in v: return 7 if v['obj'] == 'int' else None
     raise ValueError(v)
+
+def pyobj(d):
+    """a Python object from its JSON description (constructor probes)"""
+    t = d['t']
+    if t == 'num': return complex(*d['v']) if isinstance(d['v'], list) else d['v']
+    if t == 'none': return None
+    if t == 'str': return d['v']
+    if t == 'list': return [pyobj(x) for x in d['v']]
+    if t == 'tuple': return tuple(pyobj(x) for x in d['v'])
+    if t == 'range': return range(d['v'])
+    if t == 'mat': return mk(d['v'])
+    if t == 'sp': return mksp(d['v'])
+    if t == 'sp_big': return spmatrix([0, 0], [2**40, 0], [1, 1])
+    if t == 'bytes': return bytes(d['v'])
+    if t == 'bytearray': return bytearray(d['v'])
+    raise ValueError(t)
+
+def ctor_case(case):
+    """constructors, block constructors, conversions and arithmetic with operands of any kind and shape"""
+    f = {'matrix': matrix, 'spmatrix': spmatrix, 'sparse': sparse, 'spdiag': spdiag}.get(case['routine'])
+    args = [pyobj(a) for a in case['pos']]; kw = {k: pyobj(v) for k, v in case.get('kw', {}).items()}
+    if f is not None: r = f(*args, **kw)
+    else:
+        import operator
+        a, b = args[0], (args[1] if len(args) > 1 else None)
+        op = case['routine']
+        if op == 'add': r = a + b
+        elif op == 'sub': r = a - b
+        elif op == 'mul': r = a * b
+        elif op == 'div': r = a / b
+        elif op == 'pow': r = a ** b
+        elif op == 'iadd': a += b; r = a
+        elif op == 'imul': a *= b; r = a
+        elif op == 'neg': r = -a
+        elif op == 'abs': r = abs(a)
+        elif op == 'trans': r = a.trans() if rng_flag(case) else a.T
+        elif op == 'ctrans': r = a.ctrans()
+        elif op == 'size': a.size = tuple(args[1]); r = a
+        elif op == 'V': a.V = b; r = a
+        elif op == 'real': r = a.real()
+        elif op == 'imag': r = a.imag()
+        elif op == 'fromfile':
+            r = None
+        else: raise ValueError(op)
+    for o in (r if isinstance(r, (list, tuple)) else [r]):
+        if isinstance(o, spmatrix):
+            cp, ri, vv = o.CCS; cp, ri = list(cp), list(ri); m_, n_ = o.size
+            okc = len(cp) == n_ + 1 and cp[0] == 0 and all(cp[j] <= cp[j + 1] for j in range(n_)) and cp[-1] == len(ri) == len(vv) and \
+                  all(0 <= ri[q] < m_ for q in range(len(ri))) and all(ri[q] < ri[q + 1] for j in range(n_) for q in range(cp[j], cp[j + 1] - 1))
+            if not okc: return 'ccs-invalid'
+            list(matrix(o))
+        elif hasattr(o, 'size'): list(o)
+    return 'ok'
+def rng_flag(case): return case['id'] % 2 == 0
 
 class CCSInvalid(Exception): pass
 
@@ -138,18 +192,21 @@ for line in sys.stdin:
     print('START %d' % case['id']); sys.stdout.flush()
     try:
         kw = {}
+        if case['kind'] == 'embed':
+            res = embed_case(case); kw = None; gc.collect()
+            print('RESULT %d %s' % (case['id'], 'ok' if res == 'ok' else 'exc ' + res)); sys.stdout.flush(); continue
+        if case['kind'] == 'ctor':
+            res = ctor_case(case); gc.collect()
+            print('RESULT %d %s' % (case['id'], 'ok' if res == 'ok' else 'exc ' + res)); sys.stdout.flush(); continue
+        if case['kind'] == 'base':
+            res = base_case(case); gc.collect()
+            print('RESULT %d %s' % (case['id'], 'ok' if res == 'ok' else 'exc ' + res)); sys.stdout.flush(); continue
         for name, v in case['args'].items():
             if 'mat' in v: kw[name] = mk(v['mat'])
             elif 'int' in v: kw[name] = v['int']
             elif 'chr' in v: kw[name] = v['chr']
             elif 'flt' in v: kw[name] = v['flt']
             elif 'obj' in v: kw[name] = 7 if v['obj'] == 'int' else None
-        if case['kind'] == 'embed':
-            res = embed_case(case); kw = None; gc.collect()
-            print('RESULT %d %s' % (case['id'], 'ok' if res == 'ok' else 'exc ' + res)); sys.stdout.flush(); continue
-        if case['kind'] == 'base':
-            res = base_case(case); gc.collect()
-            print('RESULT %d %s' % (case['id'], 'ok' if res == 'ok' else 'exc ' + res)); sys.stdout.flush(); continue
         mod = {'lapack': lapack, 'base': base}[case['kind']]
         getattr(mod, case['routine'])(**kw)
         # touch the results
